@@ -601,11 +601,43 @@ def run(p: Program, rep: Report, tier: str) -> None:
                 if f[0] == "cmp" and f[1] == "Eq" and ("param", "if_range_raw_line") in (f[2], f[3]):
                     other = f[3] if f[2] == ("param", "if_range_raw_line") else f[2]
                     forms.add(show(other))
-    want_forms = {"f'\"{FileResponseMixin.generate_etag(stat_result)}\"'", "email.utils.formatdate(stat_result.st_mtime, usegmt=True)"}
-    if forms == want_forms:
-        rep.ok("R2.3", "judge_if_range compares If-Range with the quoted ETag and the formatted mtime - the two validators the response emits (C14/R14.1)")
+    # writer/reader agreement: the two values If-Range is compared with are the very expressions generate_common_headers emits
+    # as ETag and Last-Modified (of the stat_result each of them is given)
+    emitted = {}
+    if gch is not None:
+        rep.analysed(gch.fq)
+        try:
+            gpaths, _gc, _gi = run_paths(p, gch, mixin)
+        except Exception:
+            gpaths = []
+        for pa in gpaths:
+            if pa.exit != "return":
+                continue
+            cands_ = [t for t in subterms(pa.value) if t[0] == "dict"] + [e.b for e in pa.events if e.kind == "store" and isinstance(e.b, tuple) and e.b and e.b[0] == "dict"]
+            for d_ in cands_:
+                for k_, v_ in d_[1]:
+                    if k_[0] == "const" and isinstance(k_[1], str) and k_[1].lower() in ("etag", "last-modified"):
+                        emitted.setdefault(k_[1].lower(), set()).add(show(_rename_stat(v_, gch)))
+            for e in pa.events:
+                if e.kind == "store" and e.a[0] == "sub" and e.a[2][0] == "const" and isinstance(e.a[2][1], str) and e.a[2][1].lower() in ("etag", "last-modified"):
+                    emitted.setdefault(e.a[2][1].lower(), set()).add(show(_rename_stat(e.b, gch)))
+    jforms = set()
+    for pa in jpaths:
+        if pa.exit == "return":
+            for t in list(subterms(pa.value)) + [f for f, _t in pa.facts]:
+                if t[0] == "cmp" and t[1] == "Eq" and ("param", "if_range_raw_line") in (t[2], t[3]):
+                    jforms.add(show(_rename_stat(t[3] if t[2] == ("param", "if_range_raw_line") else t[2], jr)))
+    if set(emitted) != {"etag", "last-modified"} or any(len(v_) != 1 for v_ in emitted.values()):
+        rep.undecide("R2.3", f"generate_common_headers: the emitted ETag / Last-Modified expressions are not recognised ({ {k_: sorted(v_) for k_, v_ in emitted.items()} })")
     else:
-        rep.violation("R2.3", construct(jr, text=f"compares with {sorted(forms)}"), where(jr), f"judge_if_range does not compare If-Range against exactly the emitted ETag and Last-Modified values (got {sorted(forms)})")
+        want_forms = {next(iter(emitted["etag"])), next(iter(emitted["last-modified"]))}
+        if jforms == want_forms:
+            rep.ok("R2.3", f"judge_if_range compares If-Range with exactly the two validators the response emits: {sorted(want_forms)}")
+        else:
+            missing = sorted(want_forms - jforms)
+            rep.violation("R2.3", construct(jr, text=f"compares with {sorted(forms)}"), where(jr),
+                          f"judge_if_range does not compare If-Range against exactly the emitted ETag and Last-Modified values: it compares with {sorted(jforms)} while the response emits {sorted(want_forms)}"
+                          + (f" - an If-Range repeating the emitted {missing[0][:50]} is not recognised (200 instead of 206)" if missing else ""))
     for side in ("wsgi", "asgi"):
         cls = p.cls(f"baize.{side}.responses:FileResponse")
         call = cls.methods.get("__call__")
@@ -669,10 +701,7 @@ def run(p: Program, rep: Report, tier: str) -> None:
         else:
             rep.undecide("R2.2", f"{side}: __call__ reaches no file handler")
     ex = p.cls("baize.exceptions:RangeNotSatisfiable").methods.get("__init__")
-    if ex is not None and "{'Content-Range': f'*/{max_size}'}" in ast.unparse(ex.node):
-        rep.ok("R2.4", "416 carries Content-Range: */<size given by parse_range>")
-    else:
-        rep.violation("R2.4", construct("baize.exceptions:RangeNotSatisfiable.__init__", text="Content-Range"), "baize/exceptions.py", "RangeNotSatisfiable no longer carries Content-Range: */size")
+    _rns_content_range(p, rep, ex)
     pr = mixin.methods.get("parse_range")
     # on the paths of parse_range (its private stages inlined): every RangeNotSatisfiable that is raised carries the size parameter
     try:
@@ -933,3 +962,79 @@ def run(p: Program, rep: Report, tier: str) -> None:
             else:
                 rep.violation("R2.8", construct(fn_, text=cons), where(fn_, node), msg)
     rep.require_instances("R2.8", 1)
+
+
+def _rns_content_range(p: Program, rep: Report, ex) -> None:
+    """On EVERY path of RangeNotSatisfiable.__init__ the base initialiser receives 416 and a header mapping whose
+    Content-Range is '*/' + <the size parameter> (a size of 0 included: no truthiness test of the size)."""
+    K = construct("baize.exceptions:RangeNotSatisfiable.__init__", text="Content-Range")
+    if ex is None:
+        rep.undecide("R2.4", "RangeNotSatisfiable has no __init__ of its own: where Content-Range is built is not recognised")
+        return
+    rep.analysed(ex.fq)
+    size = ex.params[1] if len(ex.params) > 1 else None
+    try:
+        paths, _c, _i = run_paths(p, ex, ex.cls)
+    except Exception as e_:
+        rep.undecide("R2.4", f"RangeNotSatisfiable.__init__ is not analysable ({e_})")
+        return
+    rep.cfg_paths += len(paths)
+    bad = None
+    n_ok = 0
+    for pa in paths:
+        if pa.exit != "return":
+            continue
+        inits = [e for e in pa.events if e.kind == "call" and e.a[0] == "func" and e.a[1].endswith(".__init__")]
+        if len(inits) != 1:
+            rep.undecide("R2.4", f"RangeNotSatisfiable.__init__: a path with {len(inits)} base initialiser calls ({'; '.join(pa.fact_text())})")
+            return
+        e = inits[0]
+        args = list(e.b) + [v for _k, v in (e.c or ())]
+        kw = dict(e.c or ())
+        status = kw.get("status_code", e.b[0] if e.b else None)
+        headers = kw.get("headers", e.b[1] if len(e.b) > 1 else None)
+        if status != ("const", 416):
+            bad = bad or f"the status passed on is {show(status) if status else 'missing'}, not 416"
+            continue
+        cr = None
+        if headers is not None and headers[0] == "dict":
+            for k, v in headers[1]:
+                if k[0] == "const" and isinstance(k[1], str) and k[1].lower() == "content-range":
+                    cr = v
+        elif headers is not None and headers[0] not in ("const", "dict"):
+            rep.undecide("R2.4", f"RangeNotSatisfiable.__init__: header mapping of an unrecognised form {show(headers)[:60]}")
+            return
+        parts = strparts(cr) if cr is not None else None
+        if parts is not None and len(parts) == 2 and parts[0] == ("const", "*/") and (parts[1] == ("param", size) or (parts[1][0] == "call" and parts[1][1] in (("ext", "str"), ("builtin", "str")) and parts[1][2] == (("param", size),))):
+            n_ok += 1
+            continue
+        why = ("when " + " and ".join(pa.fact_text())) if pa.facts else "always"
+        bad = bad or (f"{why}, the 416 response carries " + (f"Content-Range {show(cr)[:40]}" if cr is not None else "no Content-Range") + f" instead of */<{size}> (a file of size 0 included)")
+    if bad:
+        rep.violation("R2.4", K, where(ex), "RangeNotSatisfiable: " + bad)
+    elif n_ok:
+        rep.ok("R2.4", f"416 carries Content-Range: */<size given by parse_range> on all {n_ok} path(s) of its constructor")
+    else:
+        rep.undecide("R2.4", "RangeNotSatisfiable.__init__: no returning path")
+
+
+def _rename_stat(v: Value, fn) -> Value:
+    """the term with the function's stat_result parameter (the one whose st_* attributes / generate_etag argument it is) renamed to a common name"""
+    names = [q for q in fn.params if q not in ("self", "cls")]
+    stat = None
+    for t in subterms(v):
+        if t[0] == "attr" and t[1][0] == "param" and isinstance(t[2], str) and t[2].startswith("st_"):
+            stat = t[1][1]
+        elif t[0] == "call" and t[1][0] == "func" and t[1][1].endswith("generate_etag") and t[2] and t[2][0][0] == "param":
+            stat = t[2][0][1]
+    if stat is None or stat not in names:
+        return v
+
+    def ren(x):
+        if isinstance(x, tuple):
+            if x == ("param", stat):
+                return ("param", "<stat_result>")
+            return tuple(ren(y) for y in x)
+        return x
+
+    return ren(v)
